@@ -1,7 +1,7 @@
 (** C18 — writing through a validating pool checks every block regardless of write sizes.
     Only statements, [exact], and [Print Assumptions]; the proofs are in Val/DripProofs.v and
     Val/VPoolProofs.v, the models in Val/Drip.v and Val/VPool.v. *)
-From Wharf Require Import Base.Prelude Base.BlocksLemmas Val.Drip Val.DripProofs Val.VPool Val.VPoolProofs.
+From Wharf Require Import Base.Prelude Base.BlocksLemmas Val.Drip Val.DripProofs Val.VPool Val.VPoolProofs Val.DripAfterFail.
 
 (** Whatever the slicing of the written bytes into Write calls, the drip writer hands the
     validator and then the inner writer exactly the blocks of the concatenation (the short
@@ -123,3 +123,35 @@ Theorem failing_call_is_the_completing_one :
         nth_error ws k = Some d /\ write bs validate w1 d = (w', Failed)).
 Proof. exact (@session_failing_call). Qed.
 Print Assumptions failing_call_is_the_completing_one.
+
+(** "nothing from that block on reaches the underlying pool" also when the client goes on calling
+    the writer after the failure (poolBowl.Transpose closes it after a failed copy; [defer w.Close()]).
+    The pinned code violated this: Close re-validated the refused block against the NEXT signed block
+    and relayed it when equal (finding C18-close-after-reject, repaired by the sticky error). *)
+Theorem close_after_reject_refuted_on_pinned_code :
+  exists (signed : list (list nat)) (d : list nat) w',
+    write 2 (sig_validate signed) (mkdw [] 0 []) d = (w', Failed) /\
+    dsink w' = [] /\
+    dsink (fst (old_call 2 (sig_validate signed) w' CClose)) = [[3; 4]] /\
+    dsink (fst (fst (sticky_calls 2 (sig_validate signed) (mkdw [] 0 [], false) [CWrite d; CClose]))) = [].
+Proof. exact close_after_reject_refuted. Qed.
+Print Assumptions close_after_reject_refuted_on_pinned_code.
+
+(** repaired code: after the failing Write, every later Write / Close fails and the sink stays
+    exactly what the failing Write left (which [error_mode] characterises). *)
+Theorem nothing_reaches_the_pool_after_a_failed_write :
+  forall (A St : Type) (bs : nat) (validate : St -> list A -> St * bool) (w : @dw A St) (d : list A) (w' : @dw A St)
+         (cs : list (@call A)),
+    write bs validate w d = (w', Failed) ->
+    let '(wf', os) := sticky_calls bs validate (w, false) (CWrite d :: cs) in
+    dsink (fst wf') = dsink w' /\ Forall (fun o => o = Failed) os.
+Proof. exact (@sticky_after_failed_write). Qed.
+Print Assumptions nothing_reaches_the_pool_after_a_failed_write.
+
+Theorem repaired_writer_is_the_pinned_writer_until_a_call_fails :
+  forall (A St : Type) (bs : nat) (validate : St -> list A -> St * bool) (w : @dw A St) (c : @call A),
+    let '(wf', o) := sticky_call bs validate (w, false) c in
+    let '(w', o') := old_call bs validate w c in
+    fst wf' = w' /\ o = o'.
+Proof. exact (@sticky_agrees_until_failure). Qed.
+Print Assumptions repaired_writer_is_the_pinned_writer_until_a_call_fails.
